@@ -7,13 +7,15 @@ META = {
     "category": "proof",
     "text": "Theorems about a Gallina transcription of the Documentation-level type humanizer, of the doc lexer / doc-type "
             "grammar (operator priorities and render-level limits regenerated from the source into Gen/C17_Ops.v) and of "
-            "infer_doc_type with LuaType::from_vec / union_type: for EVERY type of the sub-grammar (primitives, string / "
-            "integer / boolean literals, class / alias / enum references, arrays, table<..>, records, fun(..) without "
-            "return, unions, optionals) that fits the renderer's size limits, lexing and parsing the rendered text gives "
-            "back the union normal form of the type, and that normal form is the type itself modulo union member order for "
-            "every type the analyzer itself can read from an annotation. The model is tied to the code by an exact "
-            "correspondence check (render, parse of the annotation, parse of the rendering) and the property is searched "
-            "directly on the implementation.",
+            "infer_doc_type with LuaType::from_vec / LuaUnionType::from_vec / union_type: for EVERY type of the sub-grammar "
+            "(primitives, string / integer / boolean literals with any content, class / alias / enum references, arrays, "
+            "table<..>, records with any key text, fun(..) without return, unions, optionals, arbitrarily nested) that fits the "
+            "renderer's size limits, lexing and parsing the rendered text gives back the union normal form the analyzer builds "
+            "(parse_render), equal renderings have equal normal forms (render_unambiguous), and for every type in the form the "
+            "annotation reader produces, outside two recorded degenerate classes, the type read back is the same type modulo "
+            "union member order (reads_back_same_outside_known; the class is shown real by reads_back_same_refuted). The model "
+            "is tied to the code by an exact correspondence check (render, parse of the annotation, parse of the rendering) and "
+            "the property is searched directly on the implementation.",
     "note": "Trusted: Coq kernel; the hand model (validated by the correspondence on generated annotations, not proved equal "
             "to the Rust); the sub-grammar's side conditions (ASCII names, no index-access keys, i64 literals other than "
             "i64::MIN). Axioms: none.",
@@ -35,8 +37,9 @@ TRUSTED = [
     "search oracle: structural comparison of the analyzer's own types modulo union member order, inside the harness",
 ]
 
-THEOREMS = [("parse_render", "theorem"), ("render_unambiguous", "theorem"), ("tokens_of_render", "theorem"),
-            ("roundtrip_example", "example")]
+THEOREMS = [("parse_render", "theorem"), ("render_unambiguous", "theorem"),
+            ("reads_back_same_outside_known", "theorem"), ("reads_back_same_refuted", "refutation"),
+            ("tokens_of_render", "theorem"), ("roundtrip_example", "example")]
 
 ENV_COQ = ('[(%s, TPrim PString); (%s, TUnion UMulti [TStr %s; TStr %s]); (%s, TRef %s)]'
            % (coq_text("AliS"), coq_text("AliU"), coq_text("x"), coq_text("y"), coq_text("AliC"), coq_text("Cls0")))
